@@ -29,6 +29,16 @@ JoinRaw(segs) == IF segs = <<>> THEN <<>> ELSE <<47>> \o Head(segs) \o JoinRaw(T
 RECURSIVE JoinQuery(_)
 JoinQuery(q) == IF q = <<>> THEN <<>>
                 ELSE Pct(q[1][1]) \o <<61>> \o Pct(q[1][2]) \o (IF Len(q) > 1 THEN <<38>> \o JoinQuery(Tail(q)) ELSE <<>>)
+\* a second valid spelling of the same target: RFC 3986 lets the sub-delimiters, ':' and '@' stand unescaped in a path
+\* segment (in the query they stay escaped here: '+', '&' and '=' have a meaning there)
+SubDelim(c) == c \in {33, 36, 38, 39, 40, 41, 42, 43, 44, 59, 61, 58, 64}       \* ! $ & ' ( ) * + , ; = : @
+PctByteLite(c) == IF Unreserved(c) \/ SubDelim(c) THEN <<c>> ELSE <<37, Hex(c \div 16), Hex(c % 16)>>
+RECURSIVE PctLite(_)
+PctLite(s) == IF s = <<>> THEN <<>> ELSE PctByteLite(Head(s)) \o PctLite(Tail(s))
+RECURSIVE JoinSegLite(_)
+JoinSegLite(segs) == IF segs = <<>> THEN <<>> ELSE <<47>> \o PctLite(Head(segs)) \o JoinSegLite(Tail(segs))
+TargetLite(req) == (IF req.segs = <<>> THEN <<47>> ELSE JoinSegLite(req.segs)) \o
+                   (IF req.query = <<>> THEN <<>> ELSE <<63>> \o JoinQuery(req.query))
 \* the request target on the wire
 Target(req) == (IF req.segs = <<>> THEN <<47>> ELSE JoinSeg(req.segs)) \o
                (IF req.query = <<>> THEN <<>> ELSE <<63>> \o JoinQuery(req.query))
